@@ -54,6 +54,12 @@ def pipeline(rep, prog, rule):
     sym = Sym(f)
     dom = Dom(f)
     calls = f.calls()
+    si = f.param_by_role("cropped_src_view")
+    if si is None:
+        rep.unk(rule, "source-parameter", f.loc, "resample_convolution has no parameter of type "
+                "CroppedSrcImageView: the source of the pipeline is not identified")
+        return
+    SRC = f.local_name(si)
     mul = [c for c in calls if c.name.endswith("MulDiv::multiply_alpha_typed")]
     div = [c for c in calls if "MulDiv::divide_alpha" in c.name]
     conv = [c for c in calls if c.name.endswith("Resizer::do_convolution")]
@@ -91,7 +97,7 @@ def pipeline(rep, prog, rule):
                 "multiply_alpha_typed is not dominated by `is_supported(P::pixel_type())`")
     # multiply source = the original view, scratch sized like it
     src_e = sym.operand(mul.args[1])
-    if _mentions_param(src_e, "cropped_src_view"):
+    if _mentions_param(src_e, SRC):
         rep.ok(rule, "multiply-source", mul.at, fmt(src_e))
     else:
         rep.bad(rule, "multiply-source", mul.at, "multiply_alpha_typed reads %s, not the view of "
@@ -124,7 +130,7 @@ def pipeline(rep, prog, rule):
             n_ok_conv += 1
             if _mentions_local(src, scratch_local):
                 cb_ok = _has(src, lambda x: x[0] == "call" and x[1] == "crop_box"
-                             and _mentions_param(x, "cropped_src_view"))
+                             and _mentions_param(x, SRC))
                 if cb_ok:
                     rep.ok(rule, "premult-source", c.at, fmt(src)[:160])
                 else:
@@ -165,7 +171,7 @@ def pipeline(rep, prog, rule):
                 if okd:
                     rep.ok(rule, "divide-follows", c.at, "exactly one divide on every path")
         else:
-            if _mentions_param(src, "cropped_src_view") and not _mentions_local(src, scratch_local):
+            if _mentions_param(src, SRC) and not _mentions_local(src, scratch_local):
                 rep.ok(rule, "plain-source", c.at, fmt(src)[:120])
             else:
                 rep.bad(rule, "plain-source", c.at, "convolution outside the premultiply path "
@@ -301,12 +307,12 @@ def supersampling_alpha(rep, prog, rule):
     f = fs[0]
     rep.touch(f)
     sym = Sym(f)
-    pd = f.param_index("dst_view")
+    pd = f.param_by_role("dst_view")
     pa = f.param_index("use_alpha")
     if pd is None or pa is None:
         rep.unk(rule, "resample_super_sampling|params", f.loc, "dst_view / use_alpha parameters not found")
         return
-    dst = ("param", pd, "dst_view")
+    dst = ("param", pd, f.local_name(pd) if pd else "dst_view")
     ua = ("param", pa, "use_alpha")
     n = 0
 
